@@ -424,11 +424,11 @@ async fn run_inner(sc: &TimeScenario) -> Outcome {
             }
             // "a create timeout yields Timeout(Create)": a call whose
             // Manager::create never finished cannot end with an object
-            if let (Some(_), false) = (eff.1.ms(), no_rt) {
+            if let (Some(d), false) = (eff.1.ms(), no_rt) {
                 if let Some(c) = env.iter().rev().find(|c| c.site == Site::Create) {
                     let finished = (c.gate.is_none() && c.completed) || c.fired_at.is_some();
-                    if !finished {
-                        c10(w, "create-timeout-swallowed", format!("get() returned object {} at t={}ms although its Manager::create call (started t={}ms, create timeout {:?}) never finished", id, tc, c.start, eff.1));
+                    if !finished && tc >= c.start + d {
+                        c10(w, "create-timeout-swallowed", format!("get() returned object {} at t={}ms although its Manager::create call (started t={}ms, create timeout {:?}) had not finished when its deadline passed", id, tc, c.start, eff.1));
                     }
                 }
             }
